@@ -90,8 +90,8 @@ impl Campaign for C14c {
     }
     fn runs(&self, tier: Tier) -> u64 {
         match tier {
-            Tier::Quick => 6_000,
-            Tier::Thorough => 200_000,
+            Tier::Quick => 25_000,
+            Tier::Thorough => 800_000,
         }
     }
     fn crash_is_violation(&self) -> bool {
